@@ -218,13 +218,24 @@ def _wrapper_of(factory: FuncInfo) -> FuncInfo | None:
     return factory.nested.get("wrapper")
 
 
+def _role_params(factory: FuncInfo):
+    """(journal parameter, original-callable parameter) of a wrapper factory, by role: the parameter annotated with the Journal
+    class, and the first positional parameter annotated as a Callable (fallback: first and second positional parameter)."""
+    a = factory.node.args
+    pos = a.posonlyargs + a.args
+    jr = next((x.arg for x in pos if x.annotation is not None and "Journal" in norm(x.annotation)), pos[0].arg if pos else None)
+    orig = next((x.arg for x in pos if x.annotation is not None and "Callable" in norm(x.annotation) and x.arg != jr),
+                next((x.arg for x in pos if x.arg != jr), None))
+    return jr, orig
+
+
 def rule_r3_r4(ctx):
     repo = ctx.repo
     for name in FACTORIES:
         fac = repo.func(f"{WR}:{name}")
         w = _wrapper_of(fac)
-        orig_param = next((p for p in fac.params if p.startswith("original_")), None)
-        ctx.require(orig_param is not None, f"{name}: original_* parameter not found")
+        journal_param, orig_param = _role_params(fac)
+        ctx.require(orig_param is not None and journal_param is not None, f"{name}: journal / original parameters not found")
         if w is None:
             # a factory may be a thin front of another factory: `return <factory>(<original>, …)` hands the original over
             # unchanged and the wrapper obligations are those of the factory it delegates to (examined under its own name)
@@ -234,7 +245,7 @@ def rule_r3_r4(ctx):
                 c = body[0].value
                 tg = repo.find_func(f"{WR}:{dotted_of(c.func)}") if dotted_of(c.func) else None
                 if tg is not None and _wrapper_of(tg) is not None:
-                    tp = next((p_ for p_ in tg.params if p_.startswith("original_")), None)
+                    tp = _role_params(tg)[1]
                     passed = None
                     if tp is not None:
                         i = tg.params.index(tp)
@@ -290,7 +301,7 @@ def rule_r3_r4(ctx):
         ctx.check("R3", f"{name}: no try/except in the wrapper", not has_try, w, w.node,
                   "wrapper can swallow or change the original's exception", nontrivial=False)
         # R4: record after the original returned normally
-        recs = [c for c in calls_in(w) if norm(c.func) == "journal.record"]
+        recs = [c for c in calls_in(w) if norm(c.func) == f"{journal_param}.record"]
         ctx.require(len(recs) >= 1, f"{name}: journal.record call not found")
         on = cfg.nodes_containing(call)[0]
         for r in recs:
